@@ -74,7 +74,11 @@ def main(argv):
       base = int(os.environ.get("VERIF_CHANGED_SCALE", "4"))
       ctx.notes.append(f"{len(changed)} anchored function(s) differ from anchors.lock.json: exploration budget x{base}")
       print(f"note: anchored source changed ({', '.join(changed[:4])}{' ...' if len(changed) > 4 else ''}); budget x{base}")
-    mod.run(ctx, base)
+    # the standard run always happens (corpus, endpoint and statistical parts are scale-1 only in several modules);
+    # a changed source adds a second pass with the larger budget
+    mod.run(ctx, 1)
+    if base > 1 and len(ctx.violations) < 5:
+      mod.run(ctx, base)
     broken = (not ctx.build_ok) or ctx.disagreements
     if broken and not ctx.violations:
       # search for a concrete failing input with a larger budget (oracles on the implementation)
